@@ -37,7 +37,7 @@ Qed.
 Definition leave_ops (q : pg) (c : N) : list op := [OWalTruncate; OWriteJ 1 q; OCommitJournal c].
 
 Lemma leave_step s v q c s' : WL s v -> WK s v -> wal_file s = [] -> pg_wal q = false ->
-  run_group s (leave_ops q c) = (0, s') -> J s' /\ wal_file s' = [] /\ lockpg s' = lockpg s.
+  run_group s (leave_ops q c) = (0, s') -> J s' /\ wal_file s' = [] /\ wal_chk s' = [] /\ lockpg s' = lockpg s.
 Proof.
   intros HW HK Hf Hq H.
   assert (Ep : wpages s = []) by (unfold wpages, wscan; rewrite Hf; reflexivity).
@@ -61,11 +61,11 @@ Proof.
   destruct (op_commit_journal s1 c) as [oc s2] eqn:Ec. destruct oc; cbn [ocode] in H; try (inversion H; fail).
   inversion H; subst s2. clear H.
   destruct (mid_commit false sa s1 c s' M1 Ec) as [HB' _].
-  destruct (commit_journal_fields s1 c s' Ec) as [_ [F2 [F3 [_ F5]]]].
+  destruct (commit_journal_fields s1 c s' Ec) as [_ [F2 [F3 [F4 F5]]]].
   destruct (commit_journal_file s1 c s' Ec) as [f [_ [_ [_ [_ [_ [_ [_ [_ Ef]]]]]]]]].
   assert (Hm : wal_mode s' = false).
   { destruct (wal_mode s') eqn:Em; [|reflexivity]. destruct (F3 eq_refl) as [q' [Hq' Hw']]. rewrite Hp1 in Hq'. inversion Hq'; subst q'. congruence. }
-  split; [|split; [rewrite F5; exact Hwf1|rewrite F2; apply (m_lock false sa s1 M1)]].
+  split; [|split; [rewrite F5; exact Hwf1|split; [exact F4|rewrite F2; apply (m_lock false sa s1 M1)]]].
   apply (jb_j s' HB' Hm). intros q' Hq'. unfold file_pg in Hq', Hp1. rewrite Ef in Hq'. rewrite Hp1 in Hq'. inversion Hq'; subst. exact Hq.
 Qed.
 
@@ -160,9 +160,34 @@ Proof.
   unfold file_hdr in Eh. destruct (dbfile s1) as [|p0 r0]; [discriminate|]. cbn in Hq. inversion Hq; subst. inversion Eh; subst. reflexivity.
 Qed.
 
+(* the rollback-journal part of a history leaves no WAL checksums behind *)
+Lemma jop_nochk s o s' : jop o -> step s o = (Done, s') -> wal_chk s = [] -> wal_chk s' = [].
+Proof.
+  destruct o; cbn [jop]; try contradiction; intros _ H Hk; cbn [step] in H.
+  - unfold op_write_page in H. destruct (negb (writeable s)); [discriminate|]. inversion H; subst. destruct (wal_mode s); exact Hk.
+  - unfold op_truncate in H. destruct (negb (n =? pageN s)); [discriminate|]. inversion H; subst.
+    unfold truncate_db, reset_after. rewrite clear_from_wal_chk. exact Hk.
+  - destruct (writeable s && (pageN s =? 0) && match dbfile s with [] => true | _ :: _ => false end).
+    + unfold op_invalidate_journal in H. inversion H; subst. exact Hk.
+    + destruct (commit_journal_fields s commit s' H) as [_ [_ [_ [E _]]]]. exact E.
+  - unfold op_zero_fill in H. inversion H; subst. exact Hk.
+Qed.
+Lemma run_group_nochk : forall ops s s', Forall jop ops -> run_group s ops = (0, s') -> wal_chk s = [] -> wal_chk s' = [].
+Proof.
+  induction ops as [|o r IH]; intros s s' Hj H Hk; cbn [run_group] in H; [inversion H; subst; exact Hk|].
+  inversion Hj as [|? ? Ho Hr]; subst. destruct (step s o) as [oc s1] eqn:E.
+  destruct oc; cbn [ocode] in H; try (inversion H; fail).
+  apply (IH s1 s' Hr H). apply (jop_nochk s o s1 Ho E Hk).
+Qed.
+
 (* ---- one invariant for both journal modes ---- *)
 Definition GInv (s : st) (v : N -> N) : Prop :=
-  if wal_mode s then WL s v /\ WK s v else J s /\ wal_file s = [].
+  if wal_mode s then WL s v /\ WK s v else J s /\ wal_file s = [] /\ wal_chk s = [].
+
+Lemma ginv_basic s v : GInv s v -> 1 <= lockpg s /\ writeable s = true.
+Proof.
+  unfold GInv. destruct (wal_mode s); intros [A _]; [destruct A|destruct A]; auto.
+Qed.
 
 Lemma rb_jb s : RB s -> writeable s = true ->
   (txid s <> 0 -> chk s = scratch (fun p => if p =? lockpg s then 0 else file_h s p) (pageN s)) -> JB s.
@@ -192,7 +217,130 @@ Proof.
   split; [|exact El]. unfold GInv. destruct (wal_mode s') eqn:Em.
   - split; [apply wl_entry; [exact HB|exact Em|apply (r_nowal s' HR)|congruence]|].
     apply wk_entry; [exact HB|exact Hwf'|apply (r_nowal s' HR)].
-  - split; [|exact Hwf']. apply (jb_j s' HB Em). intros q Hq. rewrite <- (HM q Hq). exact Em.
+  - split; [|split; [exact Hwf'|apply (r_nowal s' HR)]]. apply (jb_j s' HB Em). intros q Hq. rewrite <- (HM q Hq). exact Em.
+Qed.
+
+(* ---- a file from the stream (the node is a replica for the moment): refused, or placed and applied ---- *)
+Definition wf_recv (s : st) (f : ltxrec) : Prop :=
+  wf_file f /\
+  (forall x, pageN s < x <= l_commit f -> x <> lockpg s -> alookup x (l_pages f) <> None) /\
+  (wal_mode s = true -> wal_file s = []) /\                       (* in WAL mode: after a checkpoint *)
+  (dbfile s <> [] \/ alookup 1 (l_pages f) <> None).
+Definition refused (s : st) (f : ltxrec) : bool := negb (is_snapshot f) && negb (extends_pos s f).
+
+Lemma jb_with_dir s d : JB s -> JB (with_dir s d).
+Proof. intros [A B C D E F G]. constructor; assumption. Qed.
+
+Lemma recv_step s v f oc s' : GInv s v -> wf_recv s f -> op_receive s f = (oc, s') -> oc = Done \/ oc = Failed ->
+  GInv s' (if refused s f then v else file_h s') /\ lockpg s' = lockpg s.
+Proof.
+  intros HI [[Hwf Hmax] [Hg [Hwm Hex]]] H Hoc. unfold op_receive in H. fold (refused s f) in H.
+  destruct (refused s f) eqn:Er.
+  { inversion H; subst. split; [exact HI|reflexivity]. }
+  destruct Hoc as [E|E]; subst oc.
+  2:{ exfalso. unfold op_apply in H.
+      repeat match type of H with
+      | context [let '(_, _) := ?x in _] => destruct x
+      | context [match ?x with (_, _) => _ end] => destruct x
+      | context [match ?x with Some _ => _ | None => _ end] => destruct x
+      | context [if ?x then _ else _] => destruct x
+      end; inversion H. }
+  (* what both journal modes provide *)
+  assert (JB s /\ wal_chk s = [] /\ wal_file s = [] /\ (wal_mode s = false -> forall q, file_pg s 1 = Some q -> pg_wal q = false))
+    as [HB [Hk [Hf Hp1]]].
+  { unfold GInv in HI. destruct (wal_mode s) eqn:Em.
+    - destruct HI as [HW HK]. pose proof (Hwm eq_refl) as Hf0.
+      assert (Ep : wpages s = []) by (unfold wpages, wscan; rewrite Hf0; reflexivity).
+      destruct (wk_jb s v HW HK Ep) as [HB0 [Hk0 _]]. split; [exact HB0|]. split; [exact Hk0|]. split; [exact Hf0|discriminate].
+    - destruct HI as [HJ [Hf0 Hk0]]. split; [destruct HJ; constructor; assumption|]. split; [exact Hk0|]. split; [exact Hf0|].
+      intros _. apply (j_p1 s HJ). }
+  set (sd := with_dir s (if is_snapshot f then [f] else ltxdir s ++ [f])) in *.
+  pose proof (jb_with_dir s (if is_snapshot f then [f] else ltxdir s ++ [f]) HB) as HBd. fold sd in HBd.
+  destruct (apply_core sd f true s') as [HR [El [Et [_ [_ Hc]]]]]; try assumption.
+  - apply (b_lk1 sd HBd).
+  - apply (b_cache sd HBd).
+  - apply (b_lz sd HBd).
+  - intros x Hx Hnl Hnone. destruct (N.le_gt_cases x (pageN s)) as [Hle|Hgt].
+    + apply (b_truth s HB); [lia|exact Hnl].
+    + exfalso. apply (Hg x); [lia|exact Hnl|exact Hnone].
+  - destruct (apply_fields sd f true s' H) as [Fw [F1 F0]].
+    assert (Hwf' : wal_file s' = []).
+    { destruct (N.eq_dec (l_commit f) 0) as [Ec|Ec]; [apply (F0 Ec)|]. destruct (F1 Ec) as [A _]. rewrite A. exact Hf. }
+    assert (HB' : JB s') by (apply (rb_jb s' HR); [rewrite Fw; apply (b_w s HB)|intros _; exact Hc]).
+    split; [|exact El]. unfold GInv. destruct (wal_mode s') eqn:Em.
+    + split; [apply wl_entry; [exact HB'|exact Em|apply (r_nowal s' HR)|congruence]|].
+      apply wk_entry; [exact HB'|exact Hwf'|apply (r_nowal s' HR)].
+    + split; [|split; [exact Hwf'|apply (r_nowal s' HR)]]. apply (jb_j s' HB' Em).
+      intros q Hq. destruct (N.eq_dec (l_commit f) 0) as [Ec|Ec].
+      * destruct (F0 Ec) as [_ [_ Ed]]. unfold file_pg in Hq. rewrite Ed in Hq. destruct (N.to_nat (1 - 1)); discriminate.
+      * destruct (F1 Ec) as [_ Em']. destruct Hwf as [Hpos Hnd].
+        assert (Hkk : forall kv, In kv (l_pages f) -> 1 <= fst kv) by (intros [p0 q0] Hin; apply (Hpos p0 q0 Hin)).
+        destruct (apply_file sd f true s' H ltac:(lia) Hkk Hnd) as [A [B _]].
+        destruct (alookup 1 (l_pages f)) as [q1|] eqn:E1.
+        -- apply alookup_in in E1. rewrite (A 1 q1 E1 ltac:(lia)) in Hq. inversion Hq; subst. congruence.
+        -- destruct Hex as [Hne|Hcx]; [|contradiction Hcx; reflexivity].
+           assert (~ In 1 (map fst (l_pages f))) as Hnin.
+           { intros Hin. apply in_map_iff in Hin. destruct Hin as [[k qk] [Ek Hin]]. cbn [fst] in Ek. subst k.
+             apply (in_alookup_nodup 1 qk _ Hnd) in Hin. congruence. }
+           rewrite (B 1 ltac:(lia) Hnin) in Hq.
+           ++ apply (Hp1 (eq_sym Em')). exact Hq.
+           ++ change (dbfile sd) with (dbfile s). unfold lenN. destruct (dbfile s); [contradiction|]. cbn [length]. lia.
+Qed.
+
+(* ---- the database is dropped ---- *)
+Lemma ginv_cache s v : GInv s v -> CacheOK s /\ LockZero s.
+Proof. unfold GInv. destruct (wal_mode s); intros [A _]; destruct A; auto. Qed.
+
+Lemma drop_step s v s' : GInv s v -> op_drop s = (Done, s') -> GInv s' (file_h s') /\ lockpg s' = lockpg s.
+Proof.
+  intros HI H. destruct (ginv_basic s v HI) as [Hlk Hw]. unfold op_drop in H. rewrite Hw in H. cbn [negb] in H.
+  inversion H; subst s'. clear H. split; [|reflexivity]. unfold GInv. cbn [wal_mode with_pos].
+  split; [|split; reflexivity]. constructor; cbn [writeable wal_mode lockpg pageN txid chk with_pos with_wal]; try assumption; try reflexivity.
+  - intros b Hb. unfold lenN in Hb. cbn in Hb. lia.
+  - unfold LockZero, dbc, db_page_chk, nthN. cbn. destruct (N.to_nat (lockpg s - 1)); reflexivity.
+  - intros p Hp. lia.
+  - intros p _. unfold dbc, db_page_chk, nthN. cbn. destruct (N.to_nat (p - 1)); reflexivity.
+  - intros q Hq. unfold file_pg in Hq. cbn in Hq. destruct (N.to_nat (1 - 1)); discriminate.
+Qed.
+
+(* ---- an import: a whole database image replaces the database ---- *)
+Definition wf_import (s : st) (pages : list (N * pg)) (commit : N) : Prop :=
+  (forall p q, In (p, q) pages -> 1 <= p) /\ KeysNoDup pages /\ commit <> 0 /\ lockpg s <> 1 /\
+  (forall x, 1 <= x <= commit -> alookup x pages <> None).            (* the image has every page *)
+
+Lemma import_step s v pages commit s' : GInv s v -> wf_import s pages commit ->
+  op_import s pages commit true = (Done, s') -> GInv s' (file_h s') /\ lockpg s' = lockpg s.
+Proof.
+  intros HI [Hpos [Hnd [Hc0 [Hl1 Hcov]]]] H. destruct (ginv_basic s v HI) as [Hlk Hw]. destruct (ginv_cache s v HI) as [HC HL].
+  unfold op_import in H. rewrite Hw in H. cbn [negb] in H.
+  set (pages' := filter (fun kv => (fun k => negb (k =? lockpg s)) (fst kv)) pages) in *.
+  set (f := mkLtx (txid s + 1) (txid s + 1) (chk s) (if commit =? 0 then 0 else import_post (lockpg s) pages) commit pages') in *.
+  set (s1 := with_dirty (with_wal (with_dir s (ltxdir s ++ [f])) [] [] []) []) in *.
+  assert (Hwf : wf_ltx f).
+  { split; cbn [l_pages f].
+    - intros p q Hin. apply filter_In in Hin. apply (Hpos p q). tauto.
+    - apply keys_filter. exact Hnd. }
+  assert (Hlook : forall x, x <> lockpg s -> alookup x pages' = alookup x pages).
+  { intros x Hnl. unfold pages'. rewrite (alookup_filter_key (fun k => negb (k =? lockpg s))).
+    destruct (N.eqb_spec x (lockpg s)); [contradiction|reflexivity]. }
+  destruct (apply_core s1 f true s') as [HR [El [Et [_ [_ Hc]]]]]; try assumption; try reflexivity.
+  - intros x Hx Hnl Hnone. exfalso. cbn [l_pages l_commit f] in *. change (lockpg s1) with (lockpg s) in Hnl.
+    rewrite (Hlook x Hnl) in Hnone. apply (Hcov x Hx Hnone).
+  - change (lockpg s1) with (lockpg s) in El. cbn [l_max l_commit f] in *.
+    destruct (apply_fields s1 f true s' H) as [Fw [F1 _]]. destruct (F1 Hc0) as [Fwf Fm]. cbn [l_pages f] in Fm.
+    change (wal_file s1) with (@nil (N * pg * N)) in Fwf. change (writeable s1) with (writeable s) in Fw.
+    assert (HB' : JB s') by (apply (rb_jb s' HR); [congruence|intros _; exact Hc]).
+    split; [|exact El]. unfold GInv. destruct (wal_mode s') eqn:Em.
+    + split; [apply wl_entry; [exact HB'|exact Em|apply (r_nowal s' HR)|lia]|].
+      apply wk_entry; [exact HB'|exact Fwf|apply (r_nowal s' HR)].
+    + split; [|split; [exact Fwf|apply (r_nowal s' HR)]]. apply (jb_j s' HB' Em).
+      intros q Hq. destruct Hwf as [Hpos' Hnd'].
+      assert (Hkk : forall kv, In kv (l_pages f) -> 1 <= fst kv) by (intros [p0 q0] Hin; apply (Hpos' p0 q0 Hin)).
+      destruct (apply_file s1 f true s' H ltac:(cbn [l_commit f]; lia) Hkk Hnd') as [A _]. cbn [l_pages l_commit f] in A.
+      assert (1 <> lockpg s) as Hn1 by congruence.
+      destruct (alookup 1 pages') as [q1|] eqn:E1.
+      * apply alookup_in in E1. rewrite (A 1 q1 E1 ltac:(lia)) in Hq. inversion Hq; subst. congruence.
+      * exfalso. rewrite (Hlook 1 Hn1) in E1. apply (Hcov 1 ltac:(lia) E1).
 Qed.
 
 (* ---- the steps of a history ---- *)
@@ -201,7 +349,10 @@ Inductive gstep :=
 | GSwitch (zf : list (N * pg)) (acts : list act) (c : N)   (* the transaction that takes the database into WAL mode *)
 | GW (o : wop2)                                     (* WAL mode: a commit, a checkpoint of any kind *)
 | GLeave (q : pg) (c : N)                           (* the way back: the log removed, page 1 rewritten under a rollback journal *)
-| GRestart.                                         (* LiteFS restarts: Open *)
+| GRestart                                          (* LiteFS restarts: Open *)
+| GRecv (f : ltxrec)                                (* a transaction file arrives on the stream: refused, or applied *)
+| GDrop                                             (* the database is dropped *)
+| GImport (pages : list (N * pg)) (commit : N).     (* a database image is imported over whatever is there *)
 Definition grun (s : st) (g : gstep) : option st :=
   match g with
   | GJ h => match run_group s (hops s h) with (0, s') => Some s' | _ => None end
@@ -209,10 +360,17 @@ Definition grun (s : st) (g : gstep) : option st :=
   | GW o => match run_group s (wop2_ops s o) with (0, s') => Some s' | _ => None end
   | GLeave q c => match run_group s (leave_ops q c) with (0, s') => Some s' | _ => None end
   | GRestart => match op_open s with (Done, s') => Some s' | _ => None end
+  | GRecv f => match op_receive s f with (Done, s') | (Failed, s') => Some s' | _ => None end
+  | GDrop => match op_drop s with (Done, s') => Some s' | _ => None end
+  | GImport pages commit => match op_import s pages commit true with (Done, s') => Some s' | _ => None end
   end.
 (* the logical database after the step: in WAL mode the overlay; otherwise the file *)
 Definition gview (s s' : st) (g : gstep) (v : N -> N) : N -> N :=
-  match g with GW o => wop2_view (lockpg s) o v | _ => file_h s' end.
+  match g with
+  | GW o => wop2_view (lockpg s) o v
+  | GRecv f => if refused s f then v else file_h s'
+  | _ => file_h s'
+  end.
 Definition wf_gstep (s : st) (g : gstep) : Prop :=
   match g with
   | GJ h => wal_mode s = false /\ wf_step s h
@@ -221,6 +379,9 @@ Definition wf_gstep (s : st) (g : gstep) : Prop :=
   | GW o => wal_mode s = true /\ wf_wop2 s o
   | GLeave q c => wal_mode s = true /\ wal_file s = [] /\ pg_wal q = false
   | GRestart => wf_restart s
+  | GRecv f => wf_recv s f
+  | GDrop => True
+  | GImport pages commit => wf_import s pages commit
   end.
 Fixpoint run_gsteps (s : st) (v : N -> N) (gs : list gstep) : option (st * (N -> N)) :=
   match gs with
@@ -233,20 +394,16 @@ Fixpoint wf_gsteps (s : st) (gs : list gstep) : Prop :=
   | g :: r => wf_gstep s g /\ forall s', grun s g = Some s' -> wf_gsteps s' r
   end.
 
-Lemma ginv_basic s v : GInv s v -> 1 <= lockpg s /\ writeable s = true.
-Proof.
-  unfold GInv. destruct (wal_mode s); intros [A _]; [destruct A|destruct A]; auto.
-Qed.
 
 Lemma g_step s v g s' : GInv s v -> wf_gstep s g -> grun s g = Some s' -> GInv s' (gview s s' g v) /\ lockpg s' = lockpg s.
 Proof.
-  intros HI Hwf H. destruct (ginv_basic s v HI) as [Hlk Hw]. destruct g as [h|zf acts c|o|q c|]; cbn [grun wf_gstep gview] in *.
-  - destruct Hwf as [Hm Hws]. unfold GInv in HI. rewrite Hm in HI. destruct HI as [HJ Hf].
+  intros HI Hwf H. destruct (ginv_basic s v HI) as [Hlk Hw]. destruct g as [h|zf acts c|o|q c| |f| |pages commit]; cbn [grun wf_gstep gview] in *.
+  - destruct Hwf as [Hm Hws]. unfold GInv in HI. rewrite Hm in HI. destruct HI as [HJ [Hf Hk]].
     destruct (run_group s (hops s h)) as [code s1] eqn:E. destruct code; [|discriminate]. inversion H; subst s1. clear H.
     destruct (j_step s h s' HJ Hws E) as [HJ' El]. split; [|exact El].
     unfold GInv. rewrite (j_mode s' HJ'). split; [exact HJ'|].
-    rewrite (run_group_wal_file _ s s' (hops_jops s h) E). exact Hf.
-  - destruct Hwf as [Hm [Hws Hres]]. unfold GInv in HI. rewrite Hm in HI. destruct HI as [HJ Hf].
+    split; [rewrite (run_group_wal_file _ s s' (hops_jops s h) E); exact Hf|apply (run_group_nochk _ s s' (hops_jops s h) E Hk)].
+  - destruct Hwf as [Hm [Hws Hres]]. unfold GInv in HI. rewrite Hm in HI. destruct HI as [HJ [Hf _]].
     destruct (run_group s (hops s (HTx zf acts c))) as [code s1] eqn:E. destruct code; [|discriminate]. inversion H; subst s1. clear H.
     pose proof (Hres s' eq_refl) as Hm'.
     destruct (tx_step_any s zf acts c s' HJ Hws E Hm') as [HB [Hk [Et [_ El]]]]. split; [|exact El].
@@ -260,10 +417,18 @@ Proof.
     + split; [|exact El]. unfold GInv. rewrite (w_mode s' _ HW'). split; assumption.
   - destruct Hwf as [Hm [Hf Hq]]. unfold GInv in HI. rewrite Hm in HI. destruct HI as [HW HK].
     destruct (run_group s (leave_ops q c)) as [code s1] eqn:E. destruct code; [|discriminate]. inversion H; subst s1. clear H.
-    destruct (leave_step s v q c s' HW HK Hf Hq E) as [HJ' [Hf' El]]. split; [|exact El].
-    unfold GInv. rewrite (j_mode s' HJ'). split; assumption.
+    destruct (leave_step s v q c s' HW HK Hf Hq E) as [HJ' [Hf' [Hk' El]]]. split; [|exact El].
+    unfold GInv. rewrite (j_mode s' HJ'). split; [assumption|split; assumption].
   - destruct (op_open s) as [oc s1] eqn:E. destruct oc; try discriminate. inversion H; subst s1. clear H.
     apply (restart_step s s' Hlk Hw Hwf E).
+  - destruct (op_receive s f) as [oc s1] eqn:E.
+    assert (oc = Done \/ oc = Failed) as Hoc by (destruct oc; try discriminate; auto).
+    assert (s1 = s') as -> by (destruct oc; try discriminate; inversion H; reflexivity).
+    apply (recv_step s v f oc s' HI Hwf E Hoc).
+  - destruct (op_drop s) as [oc s1] eqn:E. destruct oc; try discriminate. inversion H; subst s1. clear H.
+    apply (drop_step s v s' HI E).
+  - destruct (op_import s pages commit true) as [oc s1] eqn:E. destruct oc; try discriminate. inversion H; subst s1. clear H.
+    apply (import_step s v pages commit s' HI Hwf E).
 Qed.
 
 Theorem g_history_invariant : forall gs s v s' v',
@@ -290,7 +455,7 @@ Theorem g_history_checksum lock gs s' v' :
                          (wal_file s' = [] -> forall p, 1 <= p <= pageN s' -> p <> lock -> file_h s' p = v' p)).
 Proof.
   intros Hl Hwf H.
-  assert (GInv (init lock) (fun _ => 0)) as HI0 by (unfold GInv; cbn [wal_mode init]; split; [apply j_init; exact Hl|reflexivity]).
+  assert (GInv (init lock) (fun _ => 0)) as HI0 by (unfold GInv; cbn [wal_mode init]; split; [apply j_init; exact Hl|split; reflexivity]).
   destruct (g_history_invariant gs (init lock) _ s' v' HI0 Hwf H) as [HI El]. change (lockpg (init lock)) with lock in El.
   split; [exact El|]. unfold GInv in HI. split; intros Hm; rewrite Hm in HI.
   - destruct HI as [HJ _]. destruct HJ. rewrite El in *. split; assumption.
@@ -303,10 +468,12 @@ Qed.
 
 (* a concrete history that meets the hypotheses (the non-vacuity example of Props/C04.v): create the database; restart;
    switch to WAL mode; a WAL transaction that grows the database; restart with the log in place; another transaction; a
-   complete SQLite checkpoint with the restart of the log; back to rollback-journal mode; a rollback-journal transaction *)
+   complete SQLite checkpoint with the restart of the log; back to rollback-journal mode; a rollback-journal transaction; a
+   file from the stream applied, a stray one refused; a transaction of its own again; a drop; an import *)
 Lemma g_history_example :
   let pg h n := mkPg (fl h) n false in
   let pw h n := mkPg (fl h) n true in
+  let x3 a b c := fl (N.lxor (N.lxor (fl a) (fl b)) (fl c)) in
   let gs := [GJ (HTx [] [AWrite 1 (pg 11 2); AWrite 2 (pg 12 0)] 2);
              GRestart;
              GSwitch [] [AWrite 1 (pw 13 2)] 2;
@@ -315,11 +482,16 @@ Lemma g_history_example :
              GW (W2Commit [(2, pw 24 0)] 3);
              GW W2SqlRestart;
              GLeave (pg 15 3) 3;
-             GJ (HTx [] [AWrite 3 (pg 36 0)] 3)] in
+             GJ (HTx [] [AWrite 3 (pg 36 0)] 3);
+             GRecv (mkLtx 7 7 (x3 15 24 36) (x3 15 27 36) 3 [(2, pg 27 0)]);
+             GRecv (mkLtx 9 9 0 0 1 []);
+             GJ (HTx [] [AWrite 1 (pg 18 3)] 3);
+             GDrop;
+             GImport [(1, pg 41 2); (2, pg 42 0)] 2] in
   wf_gsteps (init 2097153) gs /\
   match run_gsteps (init 2097153) (fun _ => 0) gs with
-  | Some (s', v') => (wal_mode s', txid s', pageN s', chk s' =? fl (N.lxor (N.lxor (fl 15) (fl 24)) (fl 36)), lenN (dbfile s'),
-                      map (file_h s') [1; 2; 3]) = (false, 6, 3, true, 3, [fl 15; fl 24; fl 36])
+  | Some (s', v') => (wal_mode s', txid s', pageN s', chk s' =? fl (N.lxor (fl 41) (fl 42)), lenN (dbfile s'),
+                      map (file_h s') [1; 2; 3]) = (false, 10, 2, true, 2, [fl 41; fl 42; 0])
   | None => False
   end.
 Proof.
@@ -351,5 +523,17 @@ Proof.
   gnext s6 E6. split. { split; [reflexivity|exact I]. }
   gnext s7 E7. split. { split; [reflexivity|]. split; reflexivity. }
   gnext s8 E8. split. { split; [reflexivity|]. cbn [wf_step]. wf_tx. }
-  intros s9 _. exact I.
+  Ltac wf_rcv :=
+    split; [split; [split; [intros p q H; in_one H|unfold KeysNoDup; cbn [map fst l_pages]; repeat constructor; cbn [In]; lia]
+                   |cbn [l_max]; discriminate]|];
+    split; [cbn [pageN l_commit]; intros x Hx _; lia|]; split; [discriminate|left; discriminate].
+  gnext s9 E9. split. { wf_rcv. }
+  gnext s10 E10. split. { wf_rcv. }
+  gnext s11 E11. split. { split; [reflexivity|]. cbn [wf_step]. wf_tx. }
+  gnext s12 E12. split; [exact I|].
+  gnext s13 E13. split.
+  { split; [intros p q H; in_one H|]. split; [unfold KeysNoDup; cbn [map fst]; repeat constructor; cbn [In]; lia|].
+    split; [discriminate|]. split; [cbn [lockpg]; discriminate|].
+    intros x Hx. assert (x = 1 \/ x = 2) as [->| ->] by lia; discriminate. }
+  intros s14 _. exact I.
 Qed.
